@@ -44,8 +44,11 @@ func c13Fixture() *core.Spec {
 		core.MkReg("Leaf_S5_a", godi.Transient),
 		core.MkReg("Leaf_S6_a", godi.Transient),
 		core.MkReg("Leaf_S5_b", godi.Scoped, core.WithName("q")), // a scoped leaf without a Close method
-		core.MkReg("InOptAfter_S7", godi.Scoped),                 // S7(S5, S6 optional)
-		core.MkReg("InOptAfter_S4", godi.Transient),              // S4(S5, S6 optional)
+		// one disposable instance under two identities (aliases): handed over once, disposed once
+		core.MkReg("Leaf_S2_b", godi.Scoped, core.WithAs("IS2", "IA"), core.WithName("m")),
+		core.MkReg("Leaf_S1_b", godi.Transient, core.WithAs("IS1", "IB"), core.WithName("m")),
+		core.MkReg("InOptAfter_S7", godi.Scoped),    // S7(S5, S6 optional)
+		core.MkReg("InOptAfter_S4", godi.Transient), // S4(S5, S6 optional)
 		// instance values (no constructor: only the container's own yield points can park their resolution)
 		{Ctor: -1, Value: "S3", Life: godi.Scoped, Name: "v"},
 		{Ctor: -1, Value: "S3", Life: godi.Transient, Name: "w"},
@@ -83,6 +86,8 @@ func overlapScenarios() []overlapScenario {
 		{"get-transient-instance-value", core.Op{Kind: core.OpGet, Type: "S3", Key: "w"}, false},
 		{"get-scoped-with-optional-fields", core.Op{Kind: core.OpGet, Type: "S7"}, false},
 		{"get-scoped-leaf-without-close-method", core.Op{Kind: core.OpGet, Type: "S5", Key: "q"}, false},
+		{"get-scoped-with-two-aliases", core.Op{Kind: core.OpGet, Type: "IS2", Key: "m"}, false},
+		{"get-transient-with-two-aliases", core.Op{Kind: core.OpGet, Type: "IB", Key: "m"}, false},
 		{"get-transient-with-optional-fields", core.Op{Kind: core.OpGet, Type: "S4"}, false},
 		{"create-child-with-initializers", core.Op{Kind: core.OpCreate, CtxKind: 0}, true},
 		{"create-child-own-ctx", core.Op{Kind: core.OpCreate, CtxKind: 2}, true},
